@@ -38,6 +38,11 @@ def units(tier):
             if second == s:
                 second = None
             us.append(dict(h="com_prog", prog=p, first=list(s), second=list(second) if second else None, std="f2008" if (f08 or rot % 2) else "f2003", cost=2))
+    # reader kernel: where does the trailing comment of a line start?  every text over quotes, '!',
+    # a letter and a blank (both quote kinds mixed, quotes inside the other kind of literal, doubled)
+    for n in ((3, 4, 5, 6, 7) if q else (3, 4, 5, 6, 7, 8)):
+        for form in ("free", "fixed"):
+            us.append(dict(h="k_inline", n=n, form=form, cost=n))
     return us
 
 
@@ -56,6 +61,51 @@ def _is_directive(text):
     if low[:5] == "!dir$" or low[:5] == "!gcc$":
         return True
     return False
+
+
+def k_inline(ctx):
+    """the reader splits 'a = <text>' into statement and trailing comment at the first '!' outside
+    a character context (oracle: a scan with the quote state)"""
+    from fparser.common.readfortran import FortranStringReader, Comment as RComment, Line
+    p = ctx.p
+    C.reset()          # the reader's memo must not carry entries of earlier paths
+    n = p["n"]
+    s = ctx.chars("s", n, "'\"!a ")
+    q = None
+    cut = None
+    for i in range(n):
+        c = s[i]
+        if q is None:
+            if c == "'":
+                q = "'"
+            elif c == '"':
+                q = '"'
+            elif c == "!":
+                cut = i
+                break
+        elif c == q:
+            q = None              # a doubled quote closes and re-opens: same effect
+    ctx.assume(q is None or cut is not None)       # literals are closed where the line / statement ends
+    if q is not None:
+        return
+    stmt = s if cut is None else s[:cut]
+    pre = "" if p["form"] == "free" else "      "
+    src = pre + "a = " + s + "\n" + pre + "b = 1\n"
+    ctx.observe("src", src)
+    items = list(FortranStringReader(src, ignore_comments=False))
+    got = [("C", it.comment) if isinstance(it, RComment) else ("L", it.line) for it in items]
+    ctx.observe("got", got)
+    want = [("L", ("a = " + stmt).rstrip(" "))]
+    if cut is not None:
+        want.append(("C", s[cut:]))
+    want.append(("L", "b = 1"))
+    ctx.check(len(got) == len(want), "reader yields %d items for a statement with%s trailing comment and the next statement" % (len(got), "" if cut is not None else "out"))
+    if len(got) != len(want):
+        return
+    for g, w in zip(got, want):
+        ctx.check(g[0] == w[0], "statement / comment items out of order")
+        a, b = g[1].rstrip(" "), w[1].rstrip(" ")
+        ctx.check((a == b) if len(a) == len(b) else False, "trailing comment does not start at the first '!' outside a character literal")
 
 
 def com_prog(ctx):
